@@ -384,6 +384,14 @@ ANCHORS = [
     ('Sum', ['1', '5', 'n'], 'ConfigError'), ('Sum', ['i', '5', 'n', 'n'], 'SummationError'),
     ('Sum', ['infty', 'infty', 'n', 'n'], 'SummationError'), ('N', 'zqx', 'UndefinedVariable'),
     ('N', '3+', 'UnableToParse'), ('Fw', 'cos(zqx)+sin(zqx)-cos(zqx)', 'InvalidInput'), ('Fw', 'sin(zqx)+0', 'InvalidInput'),
+    # array operators with anticipated misuse (added after a seeded change turned matrix^complex into a TypeError,
+    # i.e. the generic error, which the debug-twin differential cannot tell from an unanticipated failure)
+    ('M', '[[1,2],[3,4]]^i', 'MathArrayError'), ('M', '[[1,2],[3,4]]^(2*j)', 'MathArrayError'),
+    ('M', '[[1,2],[3,4]]^sqrt(-4)', 'MathArrayError'), ('M', '[[1,2],[3,4]]^(1+i)', 'MathArrayError'),
+    ('M', '[1,2]^2', 'MathArrayShapeError'), ('M', '[[1,2,3],[4,5,6]]^2', 'MathArrayShapeError'),
+    ('M', '[[1,2],[3,4]]^[1,2]', 'MathArrayShapeError'), ('M', '[[1,2],[3,4]]/[1,2]', 'MathArrayShapeError'),
+    ('M', '2^[1,2]', 'MathArrayShapeError'), ('M', '[1,2]*[1,2]*[1,2]', 'CalcError'),
+    ('M', '[[1,2],[3,4]]+1', 'MathArrayShapeError'),
 ]
 
 
